@@ -37,7 +37,7 @@ SemOK(e)  == \A o \in 1..Len(e.outs) : e.outs[o].panic = "" /\ (e.chk = "agree" 
 Sem2OK(e) == IsNormOp(e.op) /\ \A o \in 1..Len(e.outs) :
                 e.outs[o].panic = "" /\ NormOK2(e.op, e.n, e.p, e.rs, e.ins, e.outs[o].d)
 \* value class 14 (128-bit accumulator words beyond 64 bits) exists on the NTT120 family only: compared within a family
-FamOnly(e) == e.p.vclass = 14
+FamOnly(e) == "vclass" \in DOMAIN e.p /\ e.p.vclass = 14
 BeOK(e)   == \A o1, o2 \in 1..Len(e.outs) : o1 # o2 =>
                  \A x \in Who(e, o1), y \in Who(e, o2) : x.f # y.f \/ (FamOnly(e) /\ x.b \div 2 # y.b \div 2)
 FillOK(e) == /\ e.frame
